@@ -32,7 +32,7 @@ VARIANTS = {
 }
 
 WRAPS_AB = ["fopen", "fopen64", "time", "clock", "localtime", "rand", "srand", "exit",
-            "malloc", "calloc", "realloc", "free", "realpath", "mkdir", "chdir", "getcwd", "ran_num_next"]
+            "malloc", "calloc", "realloc", "free", "realpath", "mkdir", "chdir", "getcwd", "ran_num_next", "stat", "stat64"]
 
 FALLBACK_SRCS = """aho-corasick beamer char critic_markup d_string epub file html itmz itmz-lexer
 itmz-parser itmz-reader latex lexer memoir miniz mmd object_pool opendocument opendocument-content
